@@ -3,6 +3,7 @@
 package c15
 
 import (
+	"verif/internal/urlspec"
 	"encoding/json"
 	"fmt"
 	"math/rand"
@@ -20,43 +21,10 @@ import (
 
 // ---- Go re-implementation of the Lean browser spec (diffed against the driver on every string)
 
-func preprocess(v string) string {
-	b := []byte(v)
-	for len(b) > 0 && b[0] <= 32 {
-		b = b[1:]
-	}
-	for len(b) > 0 && b[len(b)-1] <= 32 {
-		b = b[:len(b)-1]
-	}
-	out := b[:0:0]
-	for _, c := range b {
-		if c != 9 && c != 10 && c != 13 {
-			out = append(out, c)
-		}
-	}
-	return string(out)
-}
+// OffSite: the browser-side specification lives in package urlspec (shared with the machine monitors).
+func OffSite(v string) bool { return urlspec.OffSite(v) }
 
-func isAlpha(c byte) bool { return c >= 'A' && c <= 'Z' || c >= 'a' && c <= 'z' }
-
-func OffSite(v string) bool {
-	w := preprocess(v)
-	if len(w) > 0 && isAlpha(w[0]) {
-		for i := 1; i < len(w); i++ {
-			c := w[i]
-			if c == ':' {
-				return true
-			}
-			if !(isAlpha(c) || c >= '0' && c <= '9' || c == '+' || c == '-' || c == '.') {
-				break
-			}
-		}
-	}
-	sl := func(c byte) bool { return c == '/' || c == '\\' }
-	return len(w) >= 2 && sl(w[0]) && sl(w[1])
-}
-
-var pieces = []string{"/", "//", "\\", "/\\", "\\\\", "evil.example", "https:", "http://", "javascript:", "://", "..", ".", "/a", "/b/", "?x=1", "#f",
+var pieces = []string{"/%2F", "/%5C", "%2f%2f", "/", "//", "\\", "/\\", "\\\\", "evil.example", "https:", "http://", "javascript:", "://", "..", ".", "/a", "/b/", "?x=1", "#f",
 	"%2F", "%5C", "@", "\t", "\n", "\r", " ", "\x00", "\x7f", "\x0b", "é", "\xff", "/home", "/../", "/./", "a=b&c=d"}
 
 func gen(r *rand.Rand) string {
@@ -183,6 +151,17 @@ func flows(r *rand.Rand, out *wire.Out, n int) {
 			code := fmt.Sprintf("c%d", i)
 			m.W.OAuth[code] = map[string]string{"uid": "u1"}
 			check("oauth2", m.HTTP("b3", "oend", mach.Args{Prov: "stub", OCode: code, State: m.W.B("b3").Sess["oauth2_state"]}, nil))
+			m.HTTP("b3", "logout", mach.Args{}, nil)
+			// … with the parameter repeated (a harmless first value) and with one more pass-along parameter
+			m.HTTP("b3", "ostart", mach.Args{Prov: "stub", Redir: v, RedirFirst: "/welcome"}, nil)
+			code2 := fmt.Sprintf("d%d", i)
+			m.W.OAuth[code2] = map[string]string{"uid": "u1"}
+			check("oauth2-repeated", m.HTTP("b3", "oend", mach.Args{Prov: "stub", OCode: code2, State: m.W.B("b3").Sess["oauth2_state"]}, nil))
+			m.HTTP("b3", "logout", mach.Args{}, nil)
+			m.HTTP("b3", "ostart", mach.Args{Prov: "stub", Redir: v, RMVal: "no"}, nil)
+			code3 := fmt.Sprintf("e%d", i)
+			m.W.OAuth[code3] = map[string]string{"uid": "u1"}
+			check("oauth2-extra-param", m.HTTP("b3", "oend", mach.Args{Prov: "stub", OCode: code3, State: m.W.B("b3").Sess["oauth2_state"]}, nil))
 			m.HTTP("b3", "logout", mach.Args{}, nil)
 		}
 	}
